@@ -1,4 +1,6 @@
 SPECIFICATION ASpec
+CONSTANT TrustUpload = FALSE
 CONSTANT WithBackend = FALSE
 INVARIANTS InvStoredValid InvLatestWins
+PROPERTY DeinlinedInCas
 CHECK_DEADLOCK FALSE
